@@ -7,6 +7,7 @@ import (
 	"regexp"
 	"runtime"
 	"strings"
+	"time"
 
 	"vgwsim/core"
 	"vgwsim/env"
@@ -29,6 +30,9 @@ type c20Case struct {
 	Mode   string `json:"mode,omitempty"`
 	Frag   int    `json:"frag,omitempty"`
 	CutPct int    `json:"cut_pct,omitempty"` // truncate the wire after this percentage of the body (0 = no)
+	// Others > 0: afterwards the clock jumps by this many seconds and two other clients (ordinary
+	// accounts) send a ListBuckets each at the same time ("keeps serving other clients")
+	Others int `json:"others,omitempty"`
 }
 
 type c20Prog struct {
@@ -235,9 +239,14 @@ func (c20) Gen(seed uint64, run int, tier string) *core.Case {
 		if r.IntN(8) == 0 {
 			cs.CutPct = 1 + r.IntN(99)
 		}
+		if p.Populated && r.IntN(5) == 0 {
+			cs.Others = []int{1, 119, 121, 400}[r.IntN(4)]
+		}
 		p.Cases = append(p.Cases, cs)
 	}
 	c := &core.Case{Check: "C20", Property: "C20", Seed: seed, Cfg: cfg}
+	// the concurrent other clients (and goroutines a request starts) interleave at seeded points
+	c.Sched = core.Sched{Policy: sim.Rand, PreemptP: []float64{0.05, 0.2, 0.5}[r.IntN(3)]}
 	c.SetP(&p)
 	return c
 }
@@ -275,6 +284,9 @@ func (c20) Shrink(c *core.Case) []*core.Case {
 		}
 		if cs.Repeat > 10 {
 			mut(func(x *c20Case) { x.Repeat = x.Repeat / 10 })
+		}
+		if cs.Others != 0 {
+			mut(func(x *c20Case) { x.Others = 0 })
 		}
 		if p.Populated {
 			q := p
@@ -511,6 +523,42 @@ func (c20) Exec(c *core.Case) (out *core.Outcome) {
 			o.Violate("health", "C20/health-probe-fails-after/"+name, "%s: a signed ListBuckets afterwards -> %d %s", desc, hp.Resp.Status, hp.Resp.ErrCode())
 			o.SetReplayP(one())
 			break
+		}
+		if cs.Others > 0 && p.Populated && fx != nil {
+			// other clients at the same time, possibly just after the cached accounts expired
+			e.S.Advance(time.Duration(cs.Others) * time.Second)
+			e.S.FaultsFired["clock"]++
+			var rs [2]*env.Result
+			for k := 0; k < 2; k++ {
+				k := k
+				acct := fx.UserA // the only account no route of the table changes
+				e.S.NewTask(fmt.Sprintf("other%d", k), nil, k, func() {
+					rs[k] = e.User(acct.Access, acct.Secret).Do(s3c.ListBuckets())
+				})
+			}
+			e.S.Run()
+			o.Probe("concurrent_other_clients")
+			if a := e.S.Aborted(); a != "" {
+				o.Violate("wedged", "C20/wedged-afterwards/"+name, "%s: two concurrent ListBuckets of other clients afterwards never finished: %s", desc, a)
+				e.S.ClearAbort()
+				o.SetReplayP(prefix())
+				return o
+			}
+			for k, r := range rs {
+				if r == nil || !r.Resp.OK() {
+					st := 0
+					if r != nil {
+						st = r.Resp.Status
+					}
+					o.Violate("health", "C20/health-probe-fails-after/"+name, "%s: concurrent ListBuckets %d of another client afterwards -> %d", desc, k, st)
+					o.SetReplayP(prefix())
+					return o
+				}
+			}
+		}
+		if mapRaceViolations(o, e.S, "C20", desc) {
+			o.SetReplayP(prefix())
+			return o
 		}
 	}
 	if o.Sample == nil {
